@@ -61,6 +61,8 @@ def c11_jobs():
 def c12_jobs():
     j = fields_jobs("c11_can.cpp", ["h_canhdr", "h_canpay", "h_canfdpay"], 12)
     j.append(Job("c11_can.cpp", "h_can_sizes", sym="none"))
+    # reserved pad bytes written by the variable-length builders (status payloads), incl. re-set objects
+    j += [x for x in c13_jobs() if x.entry == "h_build" and x.defs.get("CLS") in (6, 7) and x.tier == "quick"]
     return j + c11_more(12)
 
 
